@@ -133,7 +133,7 @@ def s3(ck, an):
     # now() returns the clock set by notify
     fn = an.fa("TradingEnv.now")
     rets = [fn.sym.canon(r.value) for r in returns_in(fn)]
-    ck.check(rets == [spec(fn, "self._transmitter._now() if self._real_time else self._now").key()], "ARGFLOW", "S3.now-is-the-clock", fn.f.short, fn.f.loc, "now() is the event clock (simulated mode)",
+    ck.check(rets == [specv(fn, "self._transmitter._now() if self._real_time else self._now").key()], "ARGFLOW", "S3.now-is-the-clock", fn.f.short, fn.f.loc, "now() is the event clock (simulated mode)",
              f"now() returns {rets}", construct="return self._now")
 
 
@@ -224,8 +224,8 @@ def s5(ck, an):
                  construct=f"self.{k} = {k}")
     for prop, attr in (("holdings_quantity", "_holdings_quantity"), ("holdings_margins", "_holdings_margins")):
         fp = an.fa(f"Broker.{prop}")
-        r = [ast.unparse(x.value) for x in returns_in(fp)]
-        ck.check(r in ([f"dict(self.{attr})"], [f"self.{attr}.copy()"], [f"copy.deepcopy(self.{attr})"]), "ALIAS", f"S5.{prop}-returns-copy", fp.f.short, fp.f.loc, f"{prop} returns a copy of the ledger",
+        r = ret_canons(fp)
+        ck.check(len(r) == 1 and r[0] in [specv(fp, t).key() for t in (f"dict(self.{attr})", f"self.{attr}.copy()", f"copy.deepcopy(self.{attr})")], "ALIAS", f"S5.{prop}-returns-copy", fp.f.short, fp.f.loc, f"{prop} returns a copy of the ledger",
                  f"{prop} returns {r}", construct=f"return dict(self.{attr})")
 
 
